@@ -66,7 +66,7 @@ def main():
             ver["ok"] = ver["demo_unpatched_exit"] == 0 and ver["demo_patched_exit"] != 0 and not ver["baseline_missing_with_patch"]
             meta["verified"] = ver
         vcopy = os.path.join(tmp, "verif")
-        shutil.copytree(ROOT, vcopy, ignore=shutil.ignore_patterns(".git", "evidence", "replays", "__pycache__", "seeded", ".deps"))
+        shutil.copytree(ROOT, vcopy, ignore=shutil.ignore_patterns(".git", "evidence", "__pycache__", "seeded", ".deps"))
         results = meta.setdefault("results", {})
         extra = ["--examples", flags["--examples"]] if "--examples" in flags else []
         tier = flags.get("--tier", "quick")
